@@ -625,7 +625,7 @@ Ltac mp_eval :=
      e_snoc e_app e_len e_combine e_nat_eqb
      eval eval_test eval_iter truthy eval_bin eval_cmp obind option_map
      v_len v_index v_field v_endtime v_slice_to v_slice_from v_zeros v_int2 v_elems zi
-     v_zeros2 v_full v_max_of v_argsort mergesort_name rec_get
+     v_zeros2 v_full v_max_of v_argsort mergesort_name
      field_get field_all lookup update bind_all
      fname fparams fbody
      String.eqb Ascii.eqb Bool.eqb].
@@ -636,7 +636,7 @@ Ltac mp_eval_in H :=
      e_snoc e_app e_len e_combine e_nat_eqb
      eval eval_test eval_iter truthy eval_bin eval_cmp obind option_map
      v_len v_index v_field v_endtime v_slice_to v_slice_from v_zeros v_int2 v_elems zi
-     v_zeros2 v_full v_max_of v_argsort mergesort_name rec_get
+     v_zeros2 v_full v_max_of v_argsort mergesort_name
      field_get field_all lookup update bind_all
      fname fparams fbody
      String.eqb Ascii.eqb Bool.eqb] in H.
@@ -689,7 +689,7 @@ Ltac mp_step :=
               end)
   | |- context [exec ?f (SWhile ?c ?b) ?e] =>
       change (exec f (SWhile c b) e) with (iter_while f c (exec f b) e)
-  end; mp_eval; cbn [negb].
+  end; mp_eval; cbn [negb rec_get String.eqb Ascii.eqb Bool.eqb].
 
 Ltac mp_steps := repeat mp_step.
 
